@@ -49,12 +49,13 @@ Record faults := {
   no_pwait2 : bool; perm_pwait2 : bool; no_timerfd : bool; no_ppoll : bool;
   no_eventfd2 : bool; no_eventfd : bool; no_create1 : bool; emfile : bool;
   eintr_waits : list Z; eintr_ctl : Z;
+  efd_ok : Z;           (* eventfd creations that succeed before no_eventfd2 / no_eventfd take effect (0 = from the first call) *)
 }.
 
 Definition no_faults : faults :=
   {| no_pwait2 := false; perm_pwait2 := false; no_timerfd := false; no_ppoll := false;
      no_eventfd2 := false; no_eventfd := false; no_create1 := false; emfile := false;
-     eintr_waits := []; eintr_ctl := 0 |}.
+     eintr_waits := []; eintr_ctl := 0; efd_ok := 0 |}.
 
 Record kernel := {
   vfds : list (Z * vfd);     (* association list, most recent binding first *)
@@ -63,24 +64,27 @@ Record kernel := {
   ep : list epent;           (* the (single) epoll instance, in insertion order *)
   nwait : Z;
   nctl : Z;
+  nefd : Z;                  (* eventfd descriptors created so far *)
   flt : faults;
 }.
 
 Definition kernel0 (f : faults) : kernel :=
-  {| vfds := []; next_fd := 1000; clock := 1000000000; ep := []; nwait := 0; nctl := 0; flt := f |}.
+  {| vfds := []; next_fd := 1000; clock := 1000000000; ep := []; nwait := 0; nctl := 0; nefd := 0; flt := f |}.
 
 Definition k_set_vfds (k : kernel) (v : list (Z * vfd)) : kernel :=
-  {| vfds := v; next_fd := next_fd k; clock := clock k; ep := ep k; nwait := nwait k; nctl := nctl k; flt := flt k |}.
+  {| vfds := v; next_fd := next_fd k; clock := clock k; ep := ep k; nwait := nwait k; nctl := nctl k; nefd := nefd k; flt := flt k |}.
 Definition k_set_next (k : kernel) (n : Z) : kernel :=
-  {| vfds := vfds k; next_fd := n; clock := clock k; ep := ep k; nwait := nwait k; nctl := nctl k; flt := flt k |}.
+  {| vfds := vfds k; next_fd := n; clock := clock k; ep := ep k; nwait := nwait k; nctl := nctl k; nefd := nefd k; flt := flt k |}.
 Definition k_set_clock (k : kernel) (c : Z) : kernel :=
-  {| vfds := vfds k; next_fd := next_fd k; clock := c; ep := ep k; nwait := nwait k; nctl := nctl k; flt := flt k |}.
+  {| vfds := vfds k; next_fd := next_fd k; clock := c; ep := ep k; nwait := nwait k; nctl := nctl k; nefd := nefd k; flt := flt k |}.
 Definition k_set_ep (k : kernel) (e : list epent) : kernel :=
-  {| vfds := vfds k; next_fd := next_fd k; clock := clock k; ep := e; nwait := nwait k; nctl := nctl k; flt := flt k |}.
+  {| vfds := vfds k; next_fd := next_fd k; clock := clock k; ep := e; nwait := nwait k; nctl := nctl k; nefd := nefd k; flt := flt k |}.
 Definition k_set_nwait (k : kernel) (n : Z) : kernel :=
-  {| vfds := vfds k; next_fd := next_fd k; clock := clock k; ep := ep k; nwait := n; nctl := nctl k; flt := flt k |}.
+  {| vfds := vfds k; next_fd := next_fd k; clock := clock k; ep := ep k; nwait := n; nctl := nctl k; nefd := nefd k; flt := flt k |}.
+Definition k_set_nefd (k : kernel) (n : Z) : kernel :=
+  {| vfds := vfds k; next_fd := next_fd k; clock := clock k; ep := ep k; nwait := nwait k; nctl := nctl k; nefd := n; flt := flt k |}.
 Definition k_set_nctl (k : kernel) (n : Z) : kernel :=
-  {| vfds := vfds k; next_fd := next_fd k; clock := clock k; ep := ep k; nwait := nwait k; nctl := n; flt := flt k |}.
+  {| vfds := vfds k; next_fd := next_fd k; clock := clock k; ep := ep k; nwait := nwait k; nctl := n; nefd := nefd k; flt := flt k |}.
 
 Fixpoint assoc {A} (l : list (Z * A)) (x : Z) : option A :=
   match l with
@@ -345,11 +349,14 @@ Definition k_pipe (k : kernel) : kernel * option (Z * Z) :=
   let k4 := k_put k3 w (with_peer (vfd0 K_PIPE_W) r true) in
   (k4, Some (r, w)).
 
-(* eventfd2 (flags2 = true) / eventfd *)
+(* eventfd2 (flags2 = true) / eventfd.  The faults no_eventfd2 / no_eventfd take effect once
+   efd_ok descriptors have been created (efd_ok = 0: from the first call). *)
+Definition efd_cut (k : kernel) : bool := efd_ok (flt k) <=? nefd k.
+
 Definition k_eventfd (k : kernel) (flags2 : bool) : kernel * (Z + errno) :=
   if emfile (flt k) then (k, inr EMFILE)
-  else if no_eventfd (flt k) || (flags2 && no_eventfd2 (flt k)) then (k, inr ENOSYS)
-  else let '(fd, k1) := k_alloc k K_EVENTFD in (k1, inl fd).
+  else if efd_cut k && (no_eventfd (flt k) || (flags2 && no_eventfd2 (flt k))) then (k, inr ENOSYS)
+  else let '(fd, k1) := k_alloc k K_EVENTFD in (k_set_nefd k1 (nefd k1 + 1), inl fd).
 
 Definition k_timerfd_create (k : kernel) : kernel * (Z + errno) :=
   if no_timerfd (flt k) then (k, inr ENOSYS)
